@@ -142,7 +142,7 @@ def l2_l5(prog, ctx):
                  key="main-range")
     else:
         ctx.inconclusive("L2", "main file searched from the highest layer down", lp.where, sh.describe())
-    hb = [b for b in cfg.blocks.values() if b.term is lp][0].id
+    hb = cfg.loop_header(lp)
     body = cfg.natural_loop(hb)
     # which variable receives the probe's result
     up = g.up()
@@ -325,7 +325,7 @@ def l6_l9(prog, ctx):
         return render(s)
     len_ok = tail_ok = False
     deviant = None
-    mhb = [x for x in cfg.blocks.values() if x.term is main[0]][0].id
+    mhb = cfg.loop_header(main[0])
     for (b, i, s) in cfg.edges():
         lit = cfg.edge_lit(b, i)
         # only edges on the way to the read within the same iteration
@@ -412,8 +412,8 @@ def l10_l11(prog, ctx):
             lit = cfg.edge_lit(b, i)
             if lit is not None and lit.node is cmpc[0] and not lit.pol:
                 # equality edge leaves the inner loop without advancing
-                ihb = [x for x in cfg.blocks.values() if x.term is inner[0]][0].id
-                ohb = [x for x in cfg.blocks.values() if x.term is outer[0]][0].id
+                ihb = cfg.loop_header(inner[0])
+                ohb = cfg.loop_header(outer[0])
                 reg = cfg.reachable(s, avoid_blocks=[ihb, ohb])
                 eq_breaks = not any(ss == ihb for (bb, ii, ss) in cfg.edges() if bb in reg)
     mb = cfg.block_of(mc[0])
